@@ -636,3 +636,67 @@ def a_registered_component_is_reachable_whatever_its_truth_value(b):
     "asking_for_other_components_does_not_ask_for_openflow": lambda res: res[6] is False,
   })
 a_registered_component_is_reachable_whatever_its_truth_value.bound = "three components"
+
+
+# ---------------------------------------------------------------- every going-up listener that asks gets a deferral OF ITS OWN
+# (added 2026-09-25 after seeded change C08_10 cached one deferral per GoingUpEvent: with two deferring listeners the first
+# release let the up event fire while the second component was still starting, and the second release raised RuntimeError)
+from pox.core import GoingUpEvent as _GoingUpEvent
+
+
+@unit(P, target="pox.core:GoingUpEvent.get_deferral / POXCore._get_go_up_deferral")
+def two_listeners_of_one_going_up_event_get_two_deferrals(b):
+  core = new_core(b)
+  b.set(core, "_go_up_stage", 1)
+  ev = b.new(_GoingUpEvent)
+  b.set(ev, "source", core)
+  def run(core, ev):
+    d1 = ev.get_deferral()
+    d2 = ev.get_deferral()
+    n0 = len(core._go_up_deferrals)
+    d1()
+    n1 = len(core._go_up_deferrals)
+    d2()
+    return (d1 is d2, n0, n1, len(core._go_up_deferrals))
+  cs = {}
+  if b.mode == "sym":
+    b.st.ghost["events"] = ()
+    cs = dict(GO_CALLS)
+    cs[EV + "raiseEvent"] = RaiseSpec(None)
+  else:
+    del EVENTS[:]
+    native_core_patches(core, None)
+  return Case(run, [core, ev], calls=cs, raises={}, ensures={
+    "each_request_takes_out_a_deferral_of_its_own": lambda res: res[0] is False and res[1] == 2 and res[2] == 1 and res[3] == 0,
+    "up_is_raised_once_after_BOTH_were_released": lambda res: events(b) == ["UpEvent"],
+  })
+
+
+# ---------------------------------------------------------------- a waiter's dependencies are the ones it was DECLARED on
+# (added 2026-09-25 after seeded change C08_11 stopped copying a dependency list: launch code that reuses one list for several
+# declarations - appending to it, clearing it - then changed the dependencies of waiters already pending)
+
+@unit(P, target=CORE + "call_when_ready (the dependency collection is copied)")
+def a_pending_waiter_does_not_share_its_dependency_list_with_the_caller(b):
+  kind = b.choice("given_as", ["list", "tuple", "set"])
+  core = new_core(b, components=b.dict({"b": b.raw_new(object)}), starting_up=False)
+  cs = {}
+  if b.mode == "sym":
+    b.st.ghost["calls"] = ()
+    cs = {CORE + "_waiter_notify": CallSpec("opaque", envelope="logs who is still waiting")}
+  else:
+    core._waiter_notify = lambda: None
+  def run(core):
+    if kind == "list":
+      given = ["a", "b"]
+    elif kind == "tuple":
+      given = ("a", "b")
+    else:
+      given = set(["a"])
+    core.call_when_ready(cb0, given, name="w")
+    stored = core._waiters[-1][2]
+    return (stored is given, [x for x in stored], len(core._waiters))
+  return Case(run, [core], calls=cs, raises={}, ensures={
+    "the_waiter_is_pending_with_a_list_of_its_own_holding_the_declared_names":
+      lambda res: res[0] is False and res[2] == 1 and (res[1] == ["a"] if kind == "set" else res[1] == ["a", "b"]),
+  })
